@@ -47,6 +47,10 @@ def maxN (a b : α) : α := if a < b then b else a
 def minN (a b : α) : α := if b < a then b else a
 /-- Python float `%` for a positive modulus: `x - r * floor (x / r)` -/
 def fmod (x r : α) : α := x - r * Num.floor (x / r)
+/-- truncation toward zero (`astype(int)`, `.int()`) -/
+def trunc (x : α) : α := if x < 0 then -(Num.floor (-x)) else Num.floor x
+/-- `2^b` as a scalar -/
+def pow2 (b : Nat) : α := Num.ofNat (2 ^ b)
 /-- degrees → radians, as `numpy.radians` -/
 def radians (d : α) : α := d * Num.pi / Num.ofNat 180
 
